@@ -48,7 +48,8 @@ func newRawEncoder(params *RawEncoderParams) *RawEncoder {
 func (e *RawEncoder) Encode(event *pipeline.Event, buf []byte) []byte {
 	node := event.Root.Dig(e.field)
 	if node == nil {
-		return buf[:0]
+		// buf holds the events of the batch encoded so far: nothing to add
+		return buf
 	}
 	return node.Encode(buf)
 }
